@@ -11,6 +11,8 @@ CONSTANTS
  DevKeepBrokers = FALSE
  DevIdFilterAll = FALSE
  DevDropErrTopics = FALSE
+ DevDupNameLosesSlot = FALSE
+ DevFlightKeyIgnoresIds = FALSE
  DevStaleIdCache = FALSE
 INIT TInit
 NEXT TNext
